@@ -23,7 +23,7 @@ CASE_TIMEOUT = 300
 WALL = {"quick": 900, "thorough": 7200}
 REQUIRED = {"ops": 20000, "force_queries": 2000, "force_queries_with_neighbours": 500, "force_across_face": 100,
             "inf_rule_hits": 20, "overwrite_adds": 100, "removals": 1000, "trees_emptied": 10, "multi_tree_histories": 3,
-            "removals_spanning_trees": 3, "force_queries_neighbours_only_in_later_tree": 5, "invariant_evaluations": 20000, "engine_states": 1000}
+            "removals_spanning_trees": 3, "force_queries_neighbours_only_in_later_tree": 5, "queries_exactly_on_a_residue": 100, "invariant_evaluations": 20000, "engine_states": 1000}
 INV = {"n": 0}
 
 
@@ -128,7 +128,7 @@ def run_case(cid, rng, workdir):
                 q = model[rng.choice(sorted(model))] if not big else model[(9, rng.randrange(5001))]
             d = np.array([rng.gauss(0, 1) for _ in range(3)])
             d /= np.linalg.norm(d)
-            p = (q + d * rng.choice([0.05, 0.09, 0.11, 0.3, 0.5, 0.8, 1.2])) % box
+            p = (q + d * rng.choice([0.05, 0.09, 0.11, 0.3, 0.5, 0.8, 1.2, 0.0])) % box     # 0.0: exactly on top of it
         return p
 
     def bad(key, msg, extra=None):
@@ -152,6 +152,8 @@ def run_case(cid, rng, workdir):
             is_ex = (mm == m and kk in ex)
             if abs(d - 0.1) < 1e-9 or abs(d - cut) < 1e-9:
                 boundary = True
+            if d == 0.0:
+                bump(res, "queries_exactly_on_a_residue")
             if d < 0.1 and d <= cut:
                 if is_ex:
                     close_ex = True
